@@ -12,6 +12,7 @@ import os
 import shutil
 import subprocess
 
+import budget
 import shrink as shr
 from core import REPO, Outcome
 
@@ -175,6 +176,21 @@ def minw(case):
 
 
 def validate(case, res, label):
+    """validate_() guarded: an answer of the wrong shape is an invalid answer, not a harness error."""
+    try:
+        return validate_(case, res, label)
+    except (KeyError, IndexError, TypeError, ValueError, AttributeError) as e:
+        return f"{label}: malformed answer {res.solution!r} (status {res.status.name}): {type(e).__name__}: {e}"
+
+
+def compare(case, a, b, la, lb):
+    try:
+        return compare_(case, a, b, la, lb)
+    except (KeyError, IndexError, TypeError, ValueError, AttributeError) as e:
+        return "malformed_answer", f"{lb} answer {b.solution!r} cannot be compared with {la} answer {a.solution!r}: {type(e).__name__}: {e}"
+
+
+def validate_(case, res, label):
     """Checks that a single answer is valid for the problem (paths real, weights sum, orders valid). Returns error or None."""
     name = case["fn"]
     st = res.status.name
@@ -247,7 +263,7 @@ def validate(case, res, label):
     return None
 
 
-def compare(case, a, b, la, lb):
+def compare_(case, a, b, la, lb):
     """a = python answer, b = other route.  Returns (class, detail) or None."""
     name = case["fn"]
     sa, sb = a.status.name, b.status.name
@@ -318,10 +334,16 @@ def _errors():
 ERRORS = (Exception,)
 
 
+STEP_LIMIT = 400_000  # Python-side work of one request on <=10 nodes (adapter glue and Python bodies); Rust code is not counted
+
+
 def guarded(fn, *a, **k):
-    """Run fn; convert a Rust panic (BaseException subclass named PanicException) into a RuntimeError."""
+    """Run fn under a step budget; convert a Rust panic (BaseException subclass named PanicException) into a RuntimeError."""
     try:
-        return fn(*a, **k)
+        with budget.steps(STEP_LIMIT):
+            return fn(*a, **k)
+    except budget.StepBudgetExceeded:
+        raise RuntimeError(f"did not return within {STEP_LIMIT} Python-side events") from None
     except (KeyboardInterrupt, SystemExit, GeneratorExit):
         raise
     except Exception:
@@ -337,12 +359,22 @@ def execute(case) -> Outcome:
     rmod = importlib.import_module("solvor.rust")
     avail = rmod.rust_available()
     world = case.get("world", "rust")
-    if avail != (world == "rust"):
-        raise RuntimeError(f"world {world} but rust_available()={avail}: overlay not in effect (PYTHONPATH={os.environ.get('PYTHONPATH')})")
+    try:
+        importlib.import_module("solvor._solvor_rust")
+        really = True
+    except ImportError:
+        really = False
+    if really != (world == "rust"):  # harness sanity: the overlay of this world is not in effect
+        raise RuntimeError(f"world {world} but the extension import says {really} (PYTHONPATH={os.environ.get('PYTHONPATH')})")
+    budget.install(["solvor.rust.adapters", "solvor.rust", "solvor.floyd_warshall", "solvor.bellman_ford", "solvor.dijkstra", "solvor.bfs",
+                    "solvor.mst", "solvor.pagerank", "solvor.scc"])
+    if avail != really:
+        o.violate(PROP, "availability_probe_wrong", f"rust_available() says {avail} but importing the extension "
+                  f"{'works' if really else 'fails'}", route="fallback", target=case["fn"])
     name = case["fn"]
     key = dict(target=name)
     try:
-        py = call(case, "python")
+        py = guarded(call, case, "python")
     except ERRORS as e:
         o.violate(PROP, f"exception:{type(e).__name__}", f"backend=python raised {type(e).__name__}: {e}", route="python", **key)
         return o
@@ -370,7 +402,7 @@ def execute(case) -> Outcome:
                 o.violate(PROP, d[0], f"{name}: {d[1]}", route="rust" if route == "default" else route, **key)
             o.trace.append([route, r.status.name, repr(r.objective)])
         try:
-            again = call(case, "python", shared)
+            again = guarded(call, case, "python", shared)
             d = compare(case, py, again, "python(pristine input)", "python(after rust calls on the same list)")
             if d or shared != [tuple(e) for e in case["edges"]]:
                 o.violate(PROP, "history_dependent", f"{name}: after backend='rust' ran on the same edge list, backend='python' answers "
@@ -389,7 +421,7 @@ def execute(case) -> Outcome:
             o.violate(PROP, f"exception:{type(e).__name__}", f"default backend without the extension raised {type(e).__name__}: {e}",
                       route="fallback", **key)
         try:
-            call(case, "rust")
+            guarded(call, case, "rust")
             o.violate(PROP, "no_import_error", "backend='rust' without the extension did not raise ImportError", route="fallback", **key)
         except ImportError:
             pass
